@@ -27,7 +27,7 @@ def gen_kitchen(r: random.Random, profile: str = "kitchen") -> Dict[str, Any]:
     for i in range(n):
         p0 = float(r.choice([300, 400]))
         w.cfg[f"M{i}"] = {"class": "Market" if stock else "TapMarket", "tickSize": r.choice([1.0, 0.1, 0.00001]),
-                          "marketPrice": p0, "fundamentalVolatility": r.choice([0.001, 0.01]),
+                          "marketPrice": p0, "fundamentalVolatility": r.choice([0.001, 0.01]) if r.random() < 0.93 else r.choice([1e-16, 2e-16, 1e-300]),
                           "fundamentalDrift": r.choice([0.0, 0.0005]), "outstandingShares": sh}
         w.cfg["simulation"]["markets"].append(f"M{i}")
         w.markets.append({"name": f"M{i}", "tick": w.cfg[f"M{i}"]["tickSize"], "p0": p0, "index": False})
